@@ -6,7 +6,12 @@ Tie: for configurations with spinning final states (incl. spin 1/2) the same eve
 are evaluated under every convention: permuted chain lists (hence every choice of reference chain),
 align_ref in {first chain, center_mass}, random_z, center_mass, only_left_angle.  For each variant the
 superposition layer (full tensor = sum of chain tensors, C03 model) is certified, and the variant's
-density is certified equal to the base convention's density (Coq-Interval on the code's values)."""
+density is certified equal to the base convention's density (Coq-Interval on the code's values).
+Massless final particles (photon, `spins: [-1, 1]`; also with declared-identical particles): the drop-out theorems need the
+full helicity range, a restricted one is preserved only by a pure z rotation (C02_massless_alignment_is_phase); the check
+certifies beta = 0 on every aligned angle of the massless particle (layer massless_alignment).
+Pinned scenarios: order of a resonance list (different l_min of the two decays of the mother resonance), cp_particles
+(align_ref, chain order with the CP partner chain undeclared; z axis with a moving parent = OPEN finding)."""
 import copy
 import itertools
 import math
@@ -19,7 +24,7 @@ import common
 from qfmt import Rq
 from props import c03
 
-TECHNIQUE = "Coq proof (permutation invariance, Wigner-D unitarity on either index, 2j<=8) + certified comparison of the code under every convention, superposition layer tied to the model"
+TECHNIQUE = "Coq proof (permutation invariance, Wigner-D unitarity on either index, a z rotation is a phase on every helicity, 2j<=8) + certified comparison of the code under every convention, superposition layer tied to the model"
 
 HEADER = c03.HEADER
 RT = c03.RT
@@ -400,7 +405,9 @@ def run(ctx):
     ctx.extra_targets = ["Amp/CascadeTie.vo"]
     rnd = random.Random(ctx.seed * 1000003 + 2)
     ctx.rule = ("base configs: spin-1/2 weak decay (3/2, 3/2, 1 resonances), spin-1/2 -> vector + spin-1/2 + scalar, vector -> two declared-identical vectors + scalar (all pairings); variants: 3 chain orders x {base, align_ref=center_mass} + "
-                "{random_z, center_mass, only_left_angle, random_z+align_ref} ; each in the parent rest frame and with a moving parent; distinct = (config, variant, frame, event)")
+                "{random_z, center_mass, only_left_angle, random_z+align_ref} ; each in the parent rest frame and with a moving parent; distinct = (config, variant, frame, event); "
+                "+ vector -> photon (spins -1, 1) + 2 scalars, without and with the scalars declared identical (quick: reduced matrix, moving parent only); "
+                "pinned: 4-body resonance list order (l_min 0 / 1), cp_particles x {align_ref, undeclared partner chain order, z axis of a moving parent (open finding)}")
     common.theorem_stage(ctx)
     cases = []
     nev = 2 if ctx.tier == "quick" else 5
